@@ -11,7 +11,11 @@ import (
 	"strings"
 	"time"
 
+	"github.com/goose-lang/primitive/disk"
 	"github.com/mit-pdos/go-journal/vrt"
+	"github.com/mit-pdos/go-nfsd/kvs"
+	"github.com/mit-pdos/go-nfsd/nfs"
+	"github.com/mit-pdos/go-nfsd/simple"
 	"verif/explore"
 	"verif/par"
 	"verif/report"
@@ -444,3 +448,27 @@ func raceSignature(rep string) (string, bool) {
 	}
 	return "race|" + a + "|" + b, ours
 }
+
+// recoveryPoints: a server start (log recovery, allocators, root inode) takes a few thousand scheduling points; one that
+// takes more than this is a runaway - e.g. the journal's recovery following a log header that the code under test has
+// overwritten reads blocks (and keeps them) until the horizon, which at the default horizon costs gigabytes per worker.
+const recoveryPoints = 150_000
+
+// starting runs a server start under the recovery horizon and restores the horizon in force before.
+func starting[T any](f func() T) T {
+	old := vrt.Horizon()
+	if h := vrt.Steps() + recoveryPoints; old == 0 || h < old {
+		vrt.SetHorizon(h)
+	}
+	v := f()
+	if old != 0 {
+		vrt.SetHorizon(old)
+	}
+	return v
+}
+
+func mkNfs(d disk.Disk) *nfs.Nfs { return starting(func() *nfs.Nfs { return nfs.MakeNfs(d) }) }
+func mkKVS(d disk.Disk, sz uint64) *kvs.KVS {
+	return starting(func() *kvs.KVS { return kvs.MkKVS(d, sz) })
+}
+func simpleRecover(d disk.Disk) *simple.Nfs { return starting(func() *simple.Nfs { return simple.Recover(d) }) }
